@@ -107,6 +107,31 @@ def run(tier, seed, rng):
                 failures.append(dict(kind='oracle', sig='strict-end', what=f"the parse ended at {o['end']} beyond the input ({len(r['raw'])} bytes)",
                                      classes=pktprops.class_source(allg, r['group']), cls=decl.cname(r['c']), raw=r['raw'].hex(),
                                      offset=r['offset'], observed=o))
+    # ---- a computed size below zero is not "as many bytes as the declaration requires": the parse must fail (if it went on, the
+    # cursor would move backwards and later fields would be decoded from bytes already consumed)
+    nsrc = ("class NF(Packet):\n    n = Int(1, signed=True)\n    d = Data(n)\n    t = Int(2)\n"
+            "class NE(Packet):\n    n = Int(1)\n    d = Data(n - 3)\n    t = Int(2)\n"
+            "class NL(Packet):\n    n = Int(1)\n    d = Data(lambda pkt, raw=b'', offset=0, **k: pkt.n - 3)\n    t = Int(2)\n"
+            "class NR(Packet):\n    tag = Int(2)\n    body = Data(lambda pkt, raw=b'', offset=0, **k: len(raw) - offset - 4)\n    crc = Int(4)\n"
+            "class NG(Packet):\n    __bisturi__ = {'generate_for_unpack': False, 'generate_for_pack': False}\n    n = Int(1)\n    d = Data(n - 3)\n    t = Int(2)\n")
+    ncases, nmeta = [], []
+    for cls_, sizes in (('NF', [-3, -2, -1, 0, 1]), ('NE', [-3, -2, -1, 0, 1]), ('NL', [-3, -2, -1, 0, 1]), ('NG', [-3, -2, -1, 0, 1])):
+        for sz in sizes:
+            first = sz % 256 if cls_ == 'NF' else sz + 3
+            raw = bytes([first]) + b'ABCDEFGH'
+            ncases.append(dict(cls=cls_, op='roundtrip', raw=raw.hex(), offset=0)); nmeta.append((cls_, sz, raw))
+    for cut in range(0, 9):
+        raw = (b'\x01\x02' + b'xyz' + b'\x0a\x0b\x0c\x0d')[:cut]
+        ncases.append(dict(cls='NR', op='roundtrip', raw=raw.hex(), offset=0)); nmeta.append(('NR', cut - 6, raw))
+    nres = run_impl(os.path.join(VERIF, 'harness', 'impl_pkt.py'), dict(header=decl.HEADER_PY, blocks=[dict(name='neg', src=nsrc)], modname='c04n', cases=ncases))
+    dist['negative_size_cases'] = len(ncases)
+    for (cls_, sz, raw), o in zip(nmeta, nres['outcomes']):
+        if sz < 0 and 'ok' in o:
+            failures.append(dict(kind='oracle', sig='strict-negative-size', what=f"a byte string whose computed size is {sz} was accepted",
+                                 classes=nsrc, cls=cls_, raw=raw.hex(), offset=0, observed=o))
+        if sz >= 0 and 'ok' not in o and len(raw) >= 9:
+            failures.append(dict(kind='oracle', sig='strict-full', what=f"a complete encoding (computed size {sz}) was not accepted",
+                                 classes=nsrc, cls=cls_, raw=raw.hex(), offset=0, observed=o))
     return dict(evaluations=len(records), distinct_nontrivial=len({(r['group'], r['c'], r['raw'], r['offset']) for r in rts}),
                 rule=("part 1 (exhaustive): single-field classes for every integer width 1..9,16 x signed x order, bit groups of 24/40/48 bits, "
                       "sized strings; every truncation point of a valid encoding at start offsets 0,1,2, generated and generic code: all shorter "
